@@ -107,13 +107,14 @@ def run(prog, chk):
         chk.ob('R01.1', g, g.ln, ok, detail, key='matrix:' + name)
 
     # ---- R01.2 / R01.5 single-qubit application ---------------------------------------------------
-    _apply_rule(prog, chk, R, app, amp, sp, KS)
+    from ..knorm import normalise
+    _apply_rule(prog, chk, R, normalise(prog, app, keep=(R.sim_ensure().name,)), amp, sp, KS)      # pair-update helpers inlined (K-NORM)
 
     # ---- R01.3 cx --------------------------------------------------------------------------------
     two = [g for n, g in gates.items() if n not in single]
     if len(two) != 1:
         raise AnalysisBroken('expected exactly one two-qubit gate, found %s' % [g.short for g in two])
-    _cx_rule(prog, chk, R, two[0], amp)
+    _cx_rule(prog, chk, R, normalise(prog, two[0], keep=(R.sim_ensure().name,)), amp)
 
     # ---- R01.4 dispatch ----------------------------------------------------------------------------
     _dispatch_rule(prog, chk, R, gates)
